@@ -21,6 +21,8 @@
 #include <unordered_set>
 #include <unordered_map>
 #include <vector>
+#include <forward_list>
+#include <tuple>
 
 #ifndef VF_PART
 #define VF_PART 1
@@ -91,25 +93,71 @@ struct HO {
 	static std::string nodeStr(const NodeSlot& n) { if (!n || n->empty()) return "empty"; P p = E::node(*n); return fmt("%d:%d", p.first, p.second); }
 	static std::vector<P> contents(const C& c) { std::vector<P> v; for (auto it = c.begin(); it != c.end(); ++it) v.push_back(E::get(it)); return v; }
 
-	static std::string ins(C& c, int k, int v, bool emplace) {
-		if constexpr (isMulti) {
-			typename C::iterator it;
-			if (!emplace) it = c.insert(E::make(k, v));
-			else if constexpr (isMap) it = c.emplace(k, v); else it = c.emplace(KV(k, v));
-			return fmt("p=%zu", rank(c, it));
+	// `sp` selects the C++ spelling of one and the same abstract call (StdSpec.lean: insert = insert(const value_type&) /
+	// insert(value_type&&) / insert(P&&); emplace = emplace(args...) in every form, incl. std::piecewise_construct)
+	static std::string retI(const C& c, typename C::iterator it) { return fmt("p=%zu", rank(c, it)); }
+	static std::string retI(const C& c, const std::pair<typename C::iterator, bool>& r) { return fmt("p=%zu %d", rank(c, r.first), (int)r.second); }
+	static std::string ins(C& c, int k, int v, bool emplace, unsigned sp = 0) {
+		if constexpr (isMap) {
+			if (!emplace) {
+				switch (sp % 4) {
+				case 0: return retI(c, c.insert(E::make(k, v)));
+				case 1: { const typename E::value x(k, v); return retI(c, c.insert(x)); }
+				case 2: return retI(c, c.insert(std::pair<int, int>(k, v)));
+				default: { const std::pair<int, int> x(k, v); return retI(c, c.insert(x)); }
+				}
+			}
+			switch (sp % 5) {
+			case 0: return retI(c, c.emplace(k, v));
+			case 1: return retI(c, c.emplace(std::piecewise_construct, std::forward_as_tuple((long)k), std::forward_as_tuple((long)v)));	// key built in a buffer
+			case 2: return retI(c, c.emplace(std::piecewise_construct, std::forward_as_tuple(k), std::forward_as_tuple(v)));
+			case 3: return retI(c, c.emplace(std::pair<int, int>(k, v)));
+			default: { const int key = k; return retI(c, c.emplace(key, (short)v)); }
+			}
 		} else {
-			std::pair<typename C::iterator, bool> r;
-			if (!emplace) r = c.insert(E::make(k, v));
-			else if constexpr (isMap) r = c.emplace(k, v); else r = c.emplace(KV(k, v));
-			return fmt("p=%zu %d", rank(c, r.first), (int)r.second);
+			if (!emplace) {
+				if (sp % 2) { const KV x(k, v); return retI(c, c.insert(x)); }
+				return retI(c, c.insert(KV(k, v)));
+			}
+			switch (sp % 3) {
+			case 0: return retI(c, c.emplace(KV(k, v)));
+			case 1: return retI(c, c.emplace(k, v));	// constructor arguments: through an extracted item
+			default: { const KV x(k, v); return retI(c, c.emplace(x)); }
+			}
 		}
 	}
-	static std::string insh(C& c, size_t h, int k, int v, bool emplace) {
+	static std::string insh(C& c, size_t h, int k, int v, bool emplace, unsigned sp = 0) {
 		auto hint = at(c, h);
 		typename C::iterator it;
-		if (!emplace) it = c.insert(hint, E::make(k, v));
-		else if constexpr (isMap) it = c.emplace_hint(hint, k, v);
-		else it = c.emplace_hint(hint, KV(k, v));
+		if constexpr (isMap) {
+			if (!emplace) {
+				switch (sp % 4) {
+				case 0: it = c.insert(hint, E::make(k, v)); break;
+				case 1: { const typename E::value x(k, v); it = c.insert(hint, x); break; }
+				case 2: it = c.insert(hint, std::pair<int, int>(k, v)); break;
+				default: { const std::pair<int, int> x(k, v); it = c.insert(hint, x); break; }
+				}
+			} else {
+				switch (sp % 5) {
+				case 0: it = c.emplace_hint(hint, k, v); break;
+				case 1: it = c.emplace_hint(hint, std::piecewise_construct, std::forward_as_tuple((long)k), std::forward_as_tuple((long)v)); break;
+				case 2: it = c.emplace_hint(hint, std::piecewise_construct, std::forward_as_tuple(k), std::forward_as_tuple(v)); break;
+				case 3: it = c.emplace_hint(hint, std::pair<int, int>(k, v)); break;
+				default: { const int key = k; it = c.emplace_hint(hint, key, (short)v); break; }
+				}
+			}
+		} else {
+			if (!emplace) {
+				if (sp % 2) { const KV x(k, v); it = c.insert(hint, x); }
+				else it = c.insert(hint, KV(k, v));
+			} else {
+				switch (sp % 3) {
+				case 0: it = c.emplace_hint(hint, KV(k, v)); break;
+				case 1: it = c.emplace_hint(hint, k, v); break;
+				default: { const KV x(k, v); it = c.emplace_hint(hint, x); break; }
+				}
+			}
+		}
 		return fmt("p=%zu", rank(c, it));
 	}
 	static std::string insr(C& c, const std::vector<P>& ys) {
@@ -135,12 +183,13 @@ struct HO {
 		}
 		return "ok";
 	}
-	static std::string tryE(C& c, int k, int v) { if constexpr (isMap && !isMulti) { auto r = c.try_emplace(k, v); return fmt("p=%zu %d", rank(c, r.first), (int)r.second); } else return ""; }
-	static std::string tryH(C& c, size_t h, int k, int v) { if constexpr (isMap && !isMulti) { auto it = c.try_emplace(at(c, h), k, v); return fmt("p=%zu", rank(c, it)); } else return ""; }
-	static std::string ioa(C& c, int k, int v) { if constexpr (isMap && !isMulti) { auto r = c.insert_or_assign(k, v); return fmt("p=%zu %d", rank(c, r.first), (int)r.second); } else return ""; }
-	static std::string ioaH(C& c, size_t h, int k, int v) { if constexpr (isMap && !isMulti) { auto it = c.insert_or_assign(at(c, h), k, v); return fmt("p=%zu", rank(c, it)); } else return ""; }
-	static std::string idx(C& c, int k) { if constexpr (isMap && !isMulti) { int x = c[k]; return fmt("v=%d", x); } else return ""; }
-	static std::string idxw(C& c, int k, int v) { if constexpr (isMap && !isMulti) { c[k] = v; return "ok"; } else return ""; }
+	// rk: the key_type&& overload (a prvalue int), else the const key_type& overload
+	static std::string tryE(C& c, int k, int v, bool rk = false) { if constexpr (isMap && !isMulti) { const int ck = k; auto r = rk ? c.try_emplace(int(k), v) : c.try_emplace(ck, v); return fmt("p=%zu %d", rank(c, r.first), (int)r.second); } else return ""; }
+	static std::string tryH(C& c, size_t h, int k, int v, bool rk = false) { if constexpr (isMap && !isMulti) { const int ck = k; auto it = rk ? c.try_emplace(at(c, h), int(k), v) : c.try_emplace(at(c, h), ck, v); return fmt("p=%zu", rank(c, it)); } else return ""; }
+	static std::string ioa(C& c, int k, int v, bool rk = false) { if constexpr (isMap && !isMulti) { const int ck = k; auto r = rk ? c.insert_or_assign(int(k), v) : c.insert_or_assign(ck, v); return fmt("p=%zu %d", rank(c, r.first), (int)r.second); } else return ""; }
+	static std::string ioaH(C& c, size_t h, int k, int v, bool rk = false) { if constexpr (isMap && !isMulti) { const int ck = k; auto it = rk ? c.insert_or_assign(at(c, h), int(k), v) : c.insert_or_assign(at(c, h), ck, v); return fmt("p=%zu", rank(c, it)); } else return ""; }
+	static std::string idx(C& c, int k, bool rk = false) { if constexpr (isMap && !isMulti) { const int ck = k; int x = rk ? c[int(k)] : c[ck]; return fmt("v=%d", x); } else return ""; }
+	static std::string idxw(C& c, int k, int v, bool rk = false) { if constexpr (isMap && !isMulti) { const int ck = k; if (rk) c[int(k)] = v; else c[ck] = v; return "ok"; } else return ""; }
 	static std::string atKey(C& c, int k) {
 		if constexpr (isMap && !isMulti) {
 			try { int x = c.at(k); const C& cc = c; int y = cc.at(k); return x == y ? fmt("v=%d", x) : std::string("const/non-const at differ"); }
@@ -148,6 +197,13 @@ struct HO {
 		} else return "";
 	}
 	static std::string find(const C& c, int k) { return fmt("p=%zu", rank(c, c.find(E::key(k)))); }
+	// the non-const overloads (iterator results)
+	static std::string findN(C& c, int k) { return fmt("p=%zu", rank(c, c.find(E::key(k)))); }
+	static std::string lbN(C& c, int k) { return fmt("p=%zu", rank(c, c.lower_bound(E::key(k)))); }
+	static std::string ubN(C& c, int k) { return fmt("p=%zu", rank(c, c.upper_bound(E::key(k)))); }
+	static std::string eqrN(C& c, int k) { auto r = c.equal_range(E::key(k)); return fmt("r=%zu %zu", rank(c, r.first), rank(c, r.second)); }
+	// erase(iterator) (for the maps a different overload than erase(const_iterator))
+	static std::string erpN(C& c, size_t r) { typename C::iterator i = c.begin(); std::advance(i, (ptrdiff_t)r); auto it = c.erase(i); return fmt("p=%zu", rank(c, it)); }
 	static std::string cnt(const C& c, int k) { return fmt("n=%zu", (size_t)c.count(E::key(k))); }
 	static std::string has(const C& c, int k) {
 		if constexpr (HasContains<C>::value) return fmt("f=%d", (int)c.contains(E::key(k)));
@@ -245,23 +301,35 @@ static void runOrderedHist(Ctx& c, Rng& rng, const char* kind, unsigned runs, un
 			unsigned op = (unsigned)rng.below(110);
 			if (grow) op = (unsigned)rng.below(34);
 			else if (n > target + 30 && op < 40) op = 62 + op % 12;
-			if (op < 12) { bool e = rng.chance(1, 3); R.step(fmt("%s %s %d %d", e ? "emp" : "ins", cn, k, v), OM::ins(m, k, v, e), OS::ins(st, k, v, e)); }
+			unsigned sp = (unsigned)rng.below(60); bool rk = rng.chance(1, 2), nc = rng.chance(1, 2);
+			if (op < 12) { bool e = rng.chance(1, 2); c.stats.count(fmt("hist.spelling.%s.%s%u", kind, e ? "emp" : "ins", sp % (isMap ? (e ? 5 : 4) : (e ? 3 : 2)))); R.step(fmt("%s %s %d %d", e ? "emp" : "ins", cn, k, v), OM::ins(m, k, v, e, sp), OS::ins(st, k, v, e, sp)); }
 			else if (op < 28) {
 				bool e = rng.chance(1, 2); size_t h = hintFor(k);
-				R.step(fmt("%s %s %zu %d %d", e ? "emph" : "insh", cn, h, k, v), OM::insh(m, h, k, v, e), OS::insh(st, h, k, v, e));
+				R.step(fmt("%s %s %zu %d %d", e ? "emph" : "insh", cn, h, k, v), OM::insh(m, h, k, v, e, sp), OS::insh(st, h, k, v, e, sp));
 			}
 			else if (op < 31) { auto ys = someItems(); R.step(fmt("insr %s%s", cn, listArg(ys).c_str()), OM::insr(m, ys), OS::insr(st, ys)); }
 			else if (op < 34) { auto ys = someItems(); R.step(fmt("insl %s%s", cn, listArg(ys).c_str()), OM::insl(m, ys), OS::insl(st, ys)); }
 			else if (op < 44 && isMap && !isMulti) {
 				switch (rng.below(7)) {
-				case 0: R.step(fmt("try %s %d %d", cn, k, v), OM::tryE(m, k, v), OS::tryE(st, k, v)); break;
-				case 1: { size_t h = hintFor(k); R.step(fmt("tryh %s %zu %d %d", cn, h, k, v), OM::tryH(m, h, k, v), OS::tryH(st, h, k, v)); break; }
-				case 2: R.step(fmt("ioa %s %d %d", cn, k, v), OM::ioa(m, k, v), OS::ioa(st, k, v)); break;
-				case 3: { size_t h = hintFor(k); R.step(fmt("ioah %s %zu %d %d", cn, h, k, v), OM::ioaH(m, h, k, v), OS::ioaH(st, h, k, v)); break; }
-				case 4: R.step(fmt("idx %s %d", cn, k), OM::idx(m, k), OS::idx(st, k)); break;
-				case 5: R.step(fmt("idxw %s %d %d", cn, k, v), OM::idxw(m, k, v), OS::idxw(st, k, v)); break;
+				case 0: R.step(fmt("try %s %d %d", cn, k, v), OM::tryE(m, k, v, rk), OS::tryE(st, k, v, rk)); break;
+				case 1: { size_t h = hintFor(k); R.step(fmt("tryh %s %zu %d %d", cn, h, k, v), OM::tryH(m, h, k, v, rk), OS::tryH(st, h, k, v, rk)); break; }
+				case 2: R.step(fmt("ioa %s %d %d", cn, k, v), OM::ioa(m, k, v, rk), OS::ioa(st, k, v, rk)); break;
+				case 3: { size_t h = hintFor(k); R.step(fmt("ioah %s %zu %d %d", cn, h, k, v), OM::ioaH(m, h, k, v, rk), OS::ioaH(st, h, k, v, rk)); break; }
+				case 4: R.step(fmt("idx %s %d", cn, k), OM::idx(m, k, rk), OS::idx(st, k, rk)); break;
+				case 5: R.step(fmt("idxw %s %d %d", cn, k, v), OM::idxw(m, k, v, rk), OS::idxw(st, k, v, rk)); break;
 				default: R.step(fmt("at %s %d", cn, k), OM::atKey(m, k), OS::atKey(st, k)); break;
 				}
+				if (rk) c.stats.count("hist.spelling.rvalue_key");
+			}
+			else if (op < 62 && nc) {
+				// the same lookups through the non-const overloads
+				c.stats.count("hist.spelling.nonconst_lookup");
+				if (op < 48) R.step(fmt("find %s %d", cn, k), OM::findN(m, k), OS::findN(st, k));
+				else if (op < 51) R.step(fmt("cnt %s %d", cn, k), OM::cnt(m, k), OS::cnt(st, k));
+				else if (op < 53) R.step(fmt("has %s %d", cn, k), OM::has(m, k), OS::has(st, k));
+				else if (op < 56) R.step(fmt("lb %s %d", cn, k), OM::lbN(m, k), OS::lbN(st, k));
+				else if (op < 59) R.step(fmt("ub %s %d", cn, k), OM::ubN(m, k), OS::ubN(st, k));
+				else R.step(fmt("eqr %s %d", cn, k), OM::eqrN(m, k), OS::eqrN(st, k));
 			}
 			else if (op < 48) R.step(fmt("find %s %d", cn, k), OM::find(m, k), OS::find(st, k));
 			else if (op < 51) R.step(fmt("cnt %s %d", cn, k), OM::cnt(m, k), OS::cnt(st, k));
@@ -270,7 +338,7 @@ static void runOrderedHist(Ctx& c, Rng& rng, const char* kind, unsigned runs, un
 			else if (op < 59) R.step(fmt("ub %s %d", cn, k), OM::ub(m, k), OS::ub(st, k));
 			else if (op < 62) R.step(fmt("eqr %s %d", cn, k), OM::eqr(m, k), OS::eqr(st, k));
 			else if (op < 66) R.step(fmt("erk %s %d", cn, k), OM::erk(m, k), OS::erk(st, k));
-			else if (op < 70) { if (n == 0) continue; size_t r = (size_t)rng.below(n); R.step(fmt("erp %s %zu", cn, r), OM::erp(m, r), OS::erp(st, r)); }
+			else if (op < 70) { if (n == 0) continue; size_t r = (size_t)rng.below(n); if (nc) R.step(fmt("erp %s %zu", cn, r), OM::erpN(m, r), OS::erpN(st, r)); else R.step(fmt("erp %s %zu", cn, r), OM::erp(m, r), OS::erp(st, r)); }
 			else if (op < 75) {
 				size_t r1 = (size_t)rng.below(n + 1), r2 = r1 + (size_t)rng.below(std::min<size_t>(n - r1, rng.chance(1, 8) ? n : 6) + 1);
 				if (rng.chance(1, 10)) { r1 = 0; r2 = n; }
@@ -375,7 +443,15 @@ static void runVectorHist(Ctx& c, Rng& rng, unsigned runs, unsigned opsPerRun)
 					if (cnt == 0) { rm = idxOf(m, m.insert(m.begin() + (ptrdiff_t)i, std::initializer_list<int>{})); rs = idxOf(st, st.insert(st.begin() + (ptrdiff_t)i, std::initializer_list<int>{})); }
 					else if (cnt == 1) { rm = idxOf(m, m.insert(m.begin() + (ptrdiff_t)i, { src[0] })); rs = idxOf(st, st.insert(st.begin() + (ptrdiff_t)i, { src[0] })); }
 					else { rm = idxOf(m, m.insert(m.begin() + (ptrdiff_t)i, { src[0], src[1] })); rs = idxOf(st, st.insert(st.begin() + (ptrdiff_t)i, { src[0], src[1] })); }
-				} else { rm = idxOf(m, m.insert(m.begin() + (ptrdiff_t)i, src.begin(), src.end())); rs = idxOf(st, st.insert(st.begin() + (ptrdiff_t)i, src.begin(), src.end())); }
+				} else {
+					// iterator category: random access, forward, single-pass input (by reference / by value)
+					switch (rng.below(4)) {
+					case 0: rm = idxOf(m, m.insert(m.begin() + (ptrdiff_t)i, src.begin(), src.end())); rs = idxOf(st, st.insert(st.begin() + (ptrdiff_t)i, src.begin(), src.end())); break;
+					case 1: { std::forward_list<int> fl(src.begin(), src.end()); rm = idxOf(m, m.insert(m.cbegin() + (ptrdiff_t)i, fl.begin(), fl.end())); rs = idxOf(st, st.insert(st.cbegin() + (ptrdiff_t)i, fl.begin(), fl.end())); c.stats.count("hist.vec.insert_forward_iterators"); break; }
+					case 2: rm = idxOf(m, m.insert(m.cbegin() + (ptrdiff_t)i, InputIt<int>(src, 0), InputIt<int>(src, src.size()))); rs = idxOf(st, st.insert(st.cbegin() + (ptrdiff_t)i, InputIt<int>(src, 0), InputIt<int>(src, src.size()))); c.stats.count("hist.vec.insert_input_iterators"); break;
+					default: rm = idxOf(m, m.insert(m.cbegin() + (ptrdiff_t)i, InputIt<int, true>(src, 0), InputIt<int, true>(src, src.size()))); rs = idxOf(st, st.insert(st.cbegin() + (ptrdiff_t)i, InputIt<int, true>(src, 0), InputIt<int, true>(src, src.size()))); c.stats.count("hist.vec.insert_input_iterators"); break;
+					}
+				}
 				R.step(fmt("insr %s %zu%s", cn, i, arg.c_str()), fmt("p=%zu", rm), fmt("p=%zu", rs));
 			}
 			else if (op < 42) { if (n == 0) continue; size_t i = (size_t)rng.below(n); size_t rm = idxOf(m, m.erase(m.begin() + (ptrdiff_t)i)), rs = idxOf(st, st.erase(st.begin() + (ptrdiff_t)i)); R.step(fmt("erp %s %zu", cn, i), fmt("p=%zu", rm), fmt("p=%zu", rs)); }
@@ -392,7 +468,9 @@ static void runVectorHist(Ctx& c, Rng& rng, unsigned runs, unsigned opsPerRun)
 			else if (op < 64) {
 				size_t cnt = (size_t)rng.below(4);
 				std::vector<int> src; std::string arg; for (size_t j = 0; j < cnt; ++j) { src.push_back((int)rng.below(50)); arg += fmt(" %d", src.back()); }
-				switch (rng.below(3)) {
+				switch (rng.below(5)) {
+				case 3: { std::forward_list<int> fl(src.begin(), src.end()); m.assign(fl.begin(), fl.end()); st.assign(fl.begin(), fl.end()); break; }
+				case 4: m.assign(InputIt<int>(src, 0), InputIt<int>(src, src.size())); st.assign(InputIt<int>(src, 0), InputIt<int>(src, src.size())); c.stats.count("hist.vec.assign_input_iterators"); break;
 				case 0: m.assign(src.begin(), src.end()); st.assign(src.begin(), src.end()); break;
 				case 1: if (cnt == 1) { m.assign({ src[0] }); st.assign({ src[0] }); } else { m.assign(src.begin(), src.end()); st.assign(src.begin(), src.end()); } break;
 				default: if (cnt == 2) { m = { src[0], src[1] }; st = { src[0], src[1] }; } else { m.assign(src.begin(), src.end()); st.assign(src.begin(), src.end()); } break;
@@ -400,9 +478,19 @@ static void runVectorHist(Ctx& c, Rng& rng, unsigned runs, unsigned opsPerRun)
 				R.step(fmt("assignr %s%s", cn, arg.c_str()), "ok", "ok");
 			}
 			else if (op < 70) { size_t i = (size_t)rng.below(n + 3); R.step(fmt("at %s %zu", cn, i), vecAtStr(m, i), vecAtStr(st, i)); }
-			else if (op < 74) { if (n == 0) continue; size_t i = (size_t)rng.below(n); R.step(fmt("idx %s %zu", cn, i), fmt("v=%d", m[i]), fmt("v=%d", st[i])); }
-			else if (op < 76) { if (n == 0) continue; R.step(fmt("front %s", cn), fmt("v=%d", m.front()), fmt("v=%d", st.front())); }
-			else if (op < 78) { if (n == 0) continue; R.step(fmt("back %s", cn), fmt("v=%d", m.back()), fmt("v=%d", st.back())); }
+			else if (op < 74) {
+				if (n == 0) continue;
+				size_t i = (size_t)rng.below(n); const M& cm = m; const S& cs = st;
+				// c[i] / const c[i] / data()[i] / const data()[i]: one abstract call
+				switch (rng.below(4)) {
+				case 0: R.step(fmt("idx %s %zu", cn, i), fmt("v=%d", m[i]), fmt("v=%d", st[i])); break;
+				case 1: R.step(fmt("idx %s %zu", cn, i), fmt("v=%d", cm[i]), fmt("v=%d", cs[i])); break;
+				case 2: R.step(fmt("idx %s %zu", cn, i), fmt("v=%d", m.data()[i]), fmt("v=%d", st.data()[i])); break;
+				default: R.step(fmt("idx %s %zu", cn, i), fmt("v=%d", cm.data()[i]), fmt("v=%d", cs.data()[i])); break;
+				}
+			}
+			else if (op < 76) { if (n == 0) continue; const M& cm = m; const S& cs = st; if (rng.chance(1, 2)) R.step(fmt("front %s", cn), fmt("v=%d", m.front()), fmt("v=%d", st.front())); else R.step(fmt("front %s", cn), fmt("v=%d", cm.front()), fmt("v=%d", cs.front())); }
+			else if (op < 78) { if (n == 0) continue; const M& cm = m; const S& cs = st; if (rng.chance(1, 2)) R.step(fmt("back %s", cn), fmt("v=%d", m.back()), fmt("v=%d", st.back())); else R.step(fmt("back %s", cn), fmt("v=%d", cm.back()), fmt("v=%d", cs.back())); }
 			else if (op < 79) { m.clear(); st.clear(); R.step(fmt("clear %s", cn), "ok", "ok"); }
 			else if (op < 81) R.step(fmt("size %s", cn), fmt("n=%zu", m.size()), fmt("n=%zu", st.size()));
 			else if (op < 82) R.step(fmt("empty %s", cn), fmt("f=%d", (int)m.empty()), fmt("f=%d", (int)st.empty()));
@@ -448,17 +536,68 @@ struct HU {
 		for (auto it = c.begin(); it != c.end(); ++it) if (get(it).first == k) return it;
 		return c.end();
 	}
-	static std::string ins(C& c, int k, int v, bool emplace) {
+	// `sp`: the C++ spelling of the abstract call (see HO::ins)
+	static std::string ins(C& c, int k, int v, bool emplace, unsigned sp = 0) {
 		std::pair<typename C::iterator, bool> r;
-		if (!emplace) r = c.insert(make(k, v));
-		else if constexpr (kind == UMAP) r = c.emplace(k, v); else r = c.emplace(KV(k, v));
+		if constexpr (kind == UMAP) {
+			if (!emplace) {
+				switch (sp % 4) {
+				case 0: r = c.insert(make(k, v)); break;
+				case 1: { const value x(k, v); r = c.insert(x); break; }
+				case 2: r = c.insert(std::pair<int, int>(k, v)); break;
+				default: { const std::pair<int, int> x(k, v); r = c.insert(x); break; }
+				}
+			} else {
+				switch (sp % 5) {
+				case 0: r = c.emplace(k, v); break;
+				case 1: r = c.emplace(std::piecewise_construct, std::forward_as_tuple((long)k), std::forward_as_tuple((long)v)); break;	// key built in a buffer
+				case 2: r = c.emplace(std::piecewise_construct, std::forward_as_tuple(k), std::forward_as_tuple(v)); break;
+				case 3: r = c.emplace(std::pair<int, int>(k, v)); break;
+				default: { const int key = k; r = c.emplace(key, (short)v); break; }
+				}
+			}
+		} else {
+			if (!emplace) { if (sp % 2) { const KV x(k, v); r = c.insert(x); } else r = c.insert(KV(k, v)); }
+			else {
+				switch (sp % 3) {
+				case 0: r = c.emplace(KV(k, v)); break;
+				case 1: r = c.emplace(k, v); break;
+				default: { const KV x(k, v); r = c.emplace(x); break; }
+				}
+			}
+		}
 		return fmt("e=%s %d", el(c, r.first).c_str(), (int)r.second);
 	}
-	static std::string insh(C& c, int k, int v, bool emplace, bool hintEnd) {
-		CIt hint = hintEnd ? c.end() : c.begin();
+	static std::string insh(C& c, int k, int v, bool emplace, bool hintEnd, unsigned sp = 0) {
+		CIt hint = hintEnd ? c.cend() : c.cbegin();
 		typename C::iterator it;
-		if (!emplace) it = c.insert(hint, make(k, v));
-		else if constexpr (kind == UMAP) it = c.emplace_hint(hint, k, v); else it = c.emplace_hint(hint, KV(k, v));
+		if constexpr (kind == UMAP) {
+			if (!emplace) {
+				switch (sp % 4) {
+				case 0: it = c.insert(hint, make(k, v)); break;
+				case 1: { const value x(k, v); it = c.insert(hint, x); break; }
+				case 2: it = c.insert(hint, std::pair<int, int>(k, v)); break;
+				default: { const std::pair<int, int> x(k, v); it = c.insert(hint, x); break; }
+				}
+			} else {
+				switch (sp % 5) {
+				case 0: it = c.emplace_hint(hint, k, v); break;
+				case 1: it = c.emplace_hint(hint, std::piecewise_construct, std::forward_as_tuple((long)k), std::forward_as_tuple((long)v)); break;
+				case 2: it = c.emplace_hint(hint, std::piecewise_construct, std::forward_as_tuple(k), std::forward_as_tuple(v)); break;
+				case 3: it = c.emplace_hint(hint, std::pair<int, int>(k, v)); break;
+				default: { const int key = k; it = c.emplace_hint(hint, key, (short)v); break; }
+				}
+			}
+		} else {
+			if (!emplace) { if (sp % 2) { const KV x(k, v); it = c.insert(hint, x); } else it = c.insert(hint, KV(k, v)); }
+			else {
+				switch (sp % 3) {
+				case 0: it = c.emplace_hint(hint, KV(k, v)); break;
+				case 1: it = c.emplace_hint(hint, k, v); break;
+				default: { const KV x(k, v); it = c.emplace_hint(hint, x); break; }
+				}
+			}
+		}
 		return fmt("e=%s", el(c, it).c_str());
 	}
 	static std::string insr(C& c, const std::vector<P>& ys) {
@@ -484,20 +623,23 @@ struct HU {
 		}
 		return "ok";
 	}
-	static std::string tryE(C& c, int k, int v, bool hinted) {
+	// rk: the key_type&& overload (a prvalue int), else the const key_type& overload
+	static std::string tryE(C& c, int k, int v, bool hinted, bool rk = false) {
 		if constexpr (kind == UMAP) {
-			if (hinted) { auto it = c.try_emplace(c.begin(), k, v); return fmt("e=%s", el(c, it).c_str()); }
-			auto r = c.try_emplace(k, v); return fmt("e=%s %d", el(c, r.first).c_str(), (int)r.second);
+			const int ck = k;
+			if (hinted) { auto it = rk ? c.try_emplace(c.cbegin(), int(k), v) : c.try_emplace(c.cbegin(), ck, v); return fmt("e=%s", el(c, it).c_str()); }
+			auto r = rk ? c.try_emplace(int(k), v) : c.try_emplace(ck, v); return fmt("e=%s %d", el(c, r.first).c_str(), (int)r.second);
 		} else return "";
 	}
-	static std::string ioa(C& c, int k, int v, bool hinted) {
+	static std::string ioa(C& c, int k, int v, bool hinted, bool rk = false) {
 		if constexpr (kind == UMAP) {
-			if (hinted) { auto it = c.insert_or_assign(c.end(), k, v); return fmt("e=%s", el(c, it).c_str()); }
-			auto r = c.insert_or_assign(k, v); return fmt("e=%s %d", el(c, r.first).c_str(), (int)r.second);
+			const int ck = k;
+			if (hinted) { auto it = rk ? c.insert_or_assign(c.cend(), int(k), v) : c.insert_or_assign(c.cend(), ck, v); return fmt("e=%s", el(c, it).c_str()); }
+			auto r = rk ? c.insert_or_assign(int(k), v) : c.insert_or_assign(ck, v); return fmt("e=%s %d", el(c, r.first).c_str(), (int)r.second);
 		} else return "";
 	}
-	static std::string idx(C& c, int k) { if constexpr (kind == UMAP) { int x = c[k]; return fmt("v=%d", x); } else return ""; }
-	static std::string idxw(C& c, int k, int v) { if constexpr (kind == UMAP) { c[k] = v; return "ok"; } else return ""; }
+	static std::string idx(C& c, int k, bool rk = false) { if constexpr (kind == UMAP) { const int ck = k; int x = rk ? c[int(k)] : c[ck]; return fmt("v=%d", x); } else return ""; }
+	static std::string idxw(C& c, int k, int v, bool rk = false) { if constexpr (kind == UMAP) { const int ck = k; if (rk) c[int(k)] = v; else c[ck] = v; return "ok"; } else return ""; }
 	static std::string atKey(C& c, int k) {
 		if constexpr (kind == UMAP) {
 			try { int x = c.at(k); const C& cc = c; int y = cc.at(k); return x == y ? fmt("v=%d", x) : std::string("const/non-const at differ"); }
@@ -505,6 +647,7 @@ struct HU {
 		} else return "";
 	}
 	static std::string find(const C& c, int k) { return "e=" + el(c, c.find(K(k))); }
+	static std::string findN(C& c, int k) { return "e=" + el(c, c.find(K(k))); }	// non-const overload
 	static std::string cnt(const C& c, int k) { return fmt("n=%zu", (size_t)c.count(K(k))); }
 	static std::string has(const C& c, int k) {
 		if constexpr (HasContains<C>::value) return fmt("f=%d", (int)c.contains(K(k)));
@@ -520,8 +663,22 @@ struct HU {
 		std::sort(v.begin(), v.end());
 		return itemsStr(v);
 	}
+	static std::string eqrN(C& c, int k) {	// non-const overload
+		auto r = c.equal_range(K(k));
+		std::vector<P> v;
+		if constexpr (isMomo) { if (r.first != c.end()) v.push_back(get(r.first)); }
+		else { for (auto it = r.first; it != r.second; ++it) v.push_back(get(it)); }
+		std::sort(v.begin(), v.end());
+		return itemsStr(v);
+	}
 	static std::string erk(C& c, int k) { return fmt("n=%zu", (size_t)c.erase(K(k))); }
 	static std::string ere(C& c, int k, bool traversal) { c.erase(iterTo(c, k, traversal)); return "ok"; }
+	// erase(iterator): a non-const iterator (for the map a different overload than erase(const_iterator))
+	static std::string ereN(C& c, int k, bool traversal) {
+		typename C::iterator it = c.find(K(k));
+		if (traversal) { it = c.begin(); while (get(it).first != k) ++it; }
+		c.erase(it); return "ok";
+	}
 	// erase(first, last) for the three documented shapes. shape 0 empty, 1 single, 2 whole
 	static std::string errange(C& c, int shape, int k, bool traversal, unsigned variant) {
 		try {
@@ -607,27 +764,34 @@ static void runUnorderedHist(Ctx& c, Rng& rng, const char* kindName, unsigned ru
 			unsigned op = (unsigned)rng.below(110);
 			if (grow) op = (unsigned)rng.below(26);
 			else if (n > target + 30 && op < 36) op = 52 + op % 16;
-			if (op < 12) { bool e = rng.chance(1, 2); R.step(fmt("%s %s %d %d", e ? "emp" : "ins", cn, k, v), OM::ins(m, k, v, e), OS::ins(st, k, v, e)); }
-			else if (op < 20) { bool e = rng.chance(1, 2), he = rng.chance(1, 2); R.step(fmt("%s %s %d %d", e ? "emph" : "insh", cn, k, v), OM::insh(m, k, v, e, he), OS::insh(st, k, v, e, he)); }
+			unsigned sp = (unsigned)rng.below(60); bool rk = rng.chance(1, 2), nc = rng.chance(1, 2);
+			if (op < 12) { bool e = rng.chance(1, 2); c.stats.count(fmt("hist.spelling.%s.%s%u", tag.c_str(), e ? "emp" : "ins", sp % (kind == UMAP ? (e ? 5 : 4) : (e ? 3 : 2)))); R.step(fmt("%s %s %d %d", e ? "emp" : "ins", cn, k, v), OM::ins(m, k, v, e, sp), OS::ins(st, k, v, e, sp)); }
+			else if (op < 20) { bool e = rng.chance(1, 2), he = rng.chance(1, 2); R.step(fmt("%s %s %d %d", e ? "emph" : "insh", cn, k, v), OM::insh(m, k, v, e, he, sp), OS::insh(st, k, v, e, he, sp)); }
 			else if (op < 23) { auto ys = someItems(); R.step(fmt("insr %s%s", cn, listArg(ys).c_str()), OM::insr(m, ys), OS::insr(st, ys)); }
 			else if (op < 26) { auto ys = someItems(); R.step(fmt("insl %s%s", cn, listArg(ys).c_str()), OM::insl(m, ys), OS::insl(st, ys)); }
 			else if (op < 38 && kind == UMAP) {
 				switch (rng.below(8)) {
-				case 0: R.step(fmt("try %s %d %d", cn, k, v), OM::tryE(m, k, v, false), OS::tryE(st, k, v, false)); break;
-				case 1: R.step(fmt("tryh %s %d %d", cn, k, v), OM::tryE(m, k, v, true), OS::tryE(st, k, v, true)); break;
-				case 2: R.step(fmt("ioa %s %d %d", cn, k, v), OM::ioa(m, k, v, false), OS::ioa(st, k, v, false)); break;
-				case 3: R.step(fmt("ioah %s %d %d", cn, k, v), OM::ioa(m, k, v, true), OS::ioa(st, k, v, true)); break;
-				case 4: R.step(fmt("idx %s %d", cn, k), OM::idx(m, k), OS::idx(st, k)); break;
-				case 5: R.step(fmt("idxw %s %d %d", cn, k, v), OM::idxw(m, k, v), OS::idxw(st, k, v)); break;
+				case 0: R.step(fmt("try %s %d %d", cn, k, v), OM::tryE(m, k, v, false, rk), OS::tryE(st, k, v, false, rk)); break;
+				case 1: R.step(fmt("tryh %s %d %d", cn, k, v), OM::tryE(m, k, v, true, rk), OS::tryE(st, k, v, true, rk)); break;
+				case 2: R.step(fmt("ioa %s %d %d", cn, k, v), OM::ioa(m, k, v, false, rk), OS::ioa(st, k, v, false, rk)); break;
+				case 3: R.step(fmt("ioah %s %d %d", cn, k, v), OM::ioa(m, k, v, true, rk), OS::ioa(st, k, v, true, rk)); break;
+				case 4: R.step(fmt("idx %s %d", cn, k), OM::idx(m, k, rk), OS::idx(st, k, rk)); break;
+				case 5: R.step(fmt("idxw %s %d %d", cn, k, v), OM::idxw(m, k, v, rk), OS::idxw(st, k, v, rk)); break;
 				default: R.step(fmt("at %s %d", cn, k), OM::atKey(m, k), OS::atKey(st, k)); break;
 				}
+				if (rk) c.stats.count("hist.spelling.rvalue_key");
 			}
-			else if (op < 43) R.step(fmt("find %s %d", cn, k), OM::find(m, k), OS::find(st, k));
+			else if (op < 43) { if (nc) R.step(fmt("find %s %d", cn, k), OM::findN(m, k), OS::findN(st, k)); else R.step(fmt("find %s %d", cn, k), OM::find(m, k), OS::find(st, k)); }
 			else if (op < 46) R.step(fmt("cnt %s %d", cn, k), OM::cnt(m, k), OS::cnt(st, k));
 			else if (op < 48) R.step(fmt("has %s %d", cn, k), OM::has(m, k), OS::has(st, k));
-			else if (op < 52) R.step(fmt("eqr %s %d", cn, k), OM::eqr(m, k), OS::eqr(st, k));
+			else if (op < 52) { if (nc) R.step(fmt("eqr %s %d", cn, k), OM::eqrN(m, k), OS::eqrN(st, k)); else R.step(fmt("eqr %s %d", cn, k), OM::eqr(m, k), OS::eqr(st, k)); }
 			else if (op < 56) R.step(fmt("erk %s %d", cn, k), OM::erk(m, k), OS::erk(st, k));
-			else if (op < 60) { if (n == 0) continue; int pk = presentKey(st); bool tr = rng.chance(1, 2); R.step(fmt("ere %s %d", cn, pk), OM::ere(m, pk, tr), OS::ere(st, pk, tr)); }
+			else if (op < 60) {
+				if (n == 0) continue;
+				int pk = presentKey(st); bool tr = rng.chance(1, 2);
+				if (nc) { c.stats.count("hist.spelling.erase_iterator"); R.step(fmt("ere %s %d", cn, pk), OM::ereN(m, pk, tr), OS::ereN(st, pk, tr)); }
+				else R.step(fmt("ere %s %d", cn, pk), OM::ere(m, pk, tr), OS::ere(st, pk, tr));
+			}
 			else if (op < 72) {
 				unsigned shape = (unsigned)rng.below(8);
 				unsigned variant = (unsigned)rng.below(1000);
@@ -700,13 +864,42 @@ struct HM {
 		auto r = c.equal_range(lay[p].first);
 		return std::next(CIt(r.first), (ptrdiff_t)(p - groupStart(lay, p)));
 	}
-	static std::string ins(C& c, int k, int v, unsigned how) {
+	static std::string ins(C& c, int k, int v, unsigned how, unsigned sp = 0) {
+		typedef std::pair<const int, int> V;
 		typename C::iterator it;
 		switch (how) {
-		case 0: it = c.insert(std::pair<const int, int>(k, v)); break;
-		case 1: it = c.emplace(k, v); break;
-		case 2: it = c.insert(c.end(), std::pair<const int, int>(k, v)); break;
-		default: it = c.emplace_hint(c.begin(), k, v); break;
+		case 0:
+			switch (sp % 4) {
+			case 0: it = c.insert(V(k, v)); break;
+			case 1: { const V x(k, v); it = c.insert(x); break; }
+			case 2: it = c.insert(std::pair<int, int>(k, v)); break;
+			default: { const std::pair<int, int> x(k, v); it = c.insert(x); break; }
+			}
+			break;
+		case 1:
+			switch (sp % 5) {
+			case 0: it = c.emplace(k, v); break;
+			case 1: it = c.emplace(std::piecewise_construct, std::forward_as_tuple((long)k), std::forward_as_tuple((long)v)); break;	// key built in a buffer
+			case 2: it = c.emplace(std::piecewise_construct, std::forward_as_tuple(k), std::forward_as_tuple(v)); break;
+			case 3: it = c.emplace(std::pair<int, int>(k, v)); break;
+			default: { const int key = k; it = c.emplace(key, (short)v); break; }
+			}
+			break;
+		case 2:
+			switch (sp % 3) {
+			case 0: it = c.insert(c.cend(), V(k, v)); break;
+			case 1: { const V x(k, v); it = c.insert(c.cend(), x); break; }
+			default: it = c.insert(c.cbegin(), std::pair<int, int>(k, v)); break;
+			}
+			break;
+		default:
+			switch (sp % 4) {
+			case 0: it = c.emplace_hint(c.cbegin(), k, v); break;
+			case 1: it = c.emplace_hint(c.cend(), std::piecewise_construct, std::forward_as_tuple((long)k), std::forward_as_tuple((long)v)); break;
+			case 2: it = c.emplace_hint(c.cbegin(), std::piecewise_construct, std::forward_as_tuple(k), std::forward_as_tuple(v)); break;
+			default: it = c.emplace_hint(c.cend(), std::pair<int, int>(k, v)); break;
+			}
+			break;
 		}
 		P p = get(it); return fmt("e=%d:%d", p.first, p.second);
 	}
@@ -749,6 +942,21 @@ struct HM {
 	}
 	static std::string erk(C& c, int k) { return fmt("n=%zu", (size_t)c.erase(k)); }
 	static std::string ere(C& c, P x, bool traversal) { auto lay = layout(c); c.erase(iterAt(c, lay, posOf(lay, x), traversal)); return "ok"; }
+	// erase(iterator) with a non-const iterator; non-const find / equal_range
+	static std::string ereN(C& c, P x, bool traversal) {
+		auto lay = layout(c); size_t p = posOf(lay, x);
+		typename C::iterator it;
+		if (traversal) it = std::next(c.begin(), (ptrdiff_t)p);
+		else { auto r = c.equal_range(x.first); it = std::next(r.first, (ptrdiff_t)(p - groupStart(lay, p))); }
+		c.erase(it); return "ok";
+	}
+	static std::string findN(C& c, int k) { auto it = c.find(k); if (it == c.end()) return "f=0"; return get(it).first == k ? "f=1" : "found another key"; }
+	static std::string eqrN(C& c, int k) {
+		auto r = c.equal_range(k);
+		std::vector<P> v; for (auto it = r.first; it != r.second; ++it) v.push_back(get(it));
+		std::sort(v.begin(), v.end());
+		return itemsStr(v);
+	}
 	// shape 0 empty, 1 single x, 2 whole key, 3 whole container
 	static std::string errange(C& c, int shape, P x, bool traversal, unsigned variant) {
 		try {
@@ -823,15 +1031,21 @@ static void runMultimapHist(Ctx& c, Rng& rng, unsigned runs, unsigned opsPerRun)
 			unsigned op = (unsigned)rng.below(100);
 			if (grow) op = (unsigned)rng.below(24);
 			else if (n > target + 30 && op < 30) op = 44 + op % 22;
-			if (op < 18) { unsigned how = (unsigned)rng.below(4); static const char* nm[] = { "ins", "emp", "insh", "emph" }; R.step(fmt("%s %s %d %d", nm[how], cn, k, v), OM::ins(m, k, v, how), OS::ins(st, k, v, how)); }
+			unsigned sp = (unsigned)rng.below(60); bool nc = rng.chance(1, 2);
+			if (op < 18) { unsigned how = (unsigned)rng.below(4); static const char* nm[] = { "ins", "emp", "insh", "emph" }; c.stats.count(fmt("hist.spelling.%s.%s%u", tag.c_str(), nm[how], sp % (how == 0 ? 4 : (how == 1 ? 5 : (how == 2 ? 3 : 4))))); R.step(fmt("%s %s %d %d", nm[how], cn, k, v), OM::ins(m, k, v, how, sp), OS::ins(st, k, v, how, sp)); }
 			else if (op < 21) { auto ys = someItems(); R.step(fmt("insr %s%s", cn, listArg(ys).c_str()), OM::insr(m, ys), OS::insr(st, ys)); }
 			else if (op < 24) { auto ys = someItems(); R.step(fmt("insl %s%s", cn, listArg(ys).c_str()), OM::insl(m, ys), OS::insl(st, ys)); }
-			else if (op < 29) R.step(fmt("find %s %d", cn, k), OM::find(m, k), OS::find(st, k));
+			else if (op < 29) { if (nc) R.step(fmt("find %s %d", cn, k), OM::findN(m, k), OS::findN(st, k)); else R.step(fmt("find %s %d", cn, k), OM::find(m, k), OS::find(st, k)); }
 			else if (op < 33) R.step(fmt("cnt %s %d", cn, k), OM::cnt(m, k), OS::cnt(st, k));
 			else if (op < 35) R.step(fmt("has %s %d", cn, k), OM::has(m, k), OS::has(st, k));
-			else if (op < 40) R.step(fmt("eqr %s %d", cn, k), OM::eqr(m, k), OS::eqr(st, k));
+			else if (op < 40) { if (nc) R.step(fmt("eqr %s %d", cn, k), OM::eqrN(m, k), OS::eqrN(st, k)); else R.step(fmt("eqr %s %d", cn, k), OM::eqr(m, k), OS::eqr(st, k)); }
 			else if (op < 44) R.step(fmt("erk %s %d", cn, k), OM::erk(m, k), OS::erk(st, k));
-			else if (op < 50) { if (n == 0) continue; P x = presentPair(); bool tr = rng.chance(1, 2); R.step(fmt("ere %s %d %d", cn, x.first, x.second), OM::ere(m, x, tr), OS::ere(st, x, tr)); }
+			else if (op < 50) {
+				if (n == 0) continue;
+				P x = presentPair(); bool tr = rng.chance(1, 2);
+				if (nc) { c.stats.count("hist.spelling.erase_iterator"); R.step(fmt("ere %s %d %d", cn, x.first, x.second), OM::ereN(m, x, tr), OS::ereN(st, x, tr)); }
+				else R.step(fmt("ere %s %d %d", cn, x.first, x.second), OM::ere(m, x, tr), OS::ere(st, x, tr));
+			}
 			else if (op < 68) {
 				unsigned shape = (unsigned)rng.below(10);
 				unsigned variant = (unsigned)rng.below(1000);
